@@ -442,3 +442,4 @@ M('c01d-no-parser-unlink', 'C01', 'break', TX, "    htp_conn_remove_tx(tx->conn,
 M('c01d-remove-only-in-tx', 'C01', 'break', CP, "    if (connp->out_tx == tx) {\n        connp->out_tx = NULL;\n    }\n}", "}", 'C01.d')
 M('c01e-use-tx-after-finalize', 'C01', 'break', TX, "    // At this point, tx may no longer be valid.\n\n    connp->in_tx = NULL;", "    // At this point, tx may no longer be valid.\n\n    tx->connp->in_tx = NULL;", 'C01.e')
 M('c01g-new-unguarded-arithmetic', 'C01', 'break', RQ, "    if (connp->in_data_receiver_hook == NULL) return HTP_OK;\n\n    htp_status_t rc = htp_connp_req_receiver_send_data(connp, 1 /* last */);", "    if (connp->in_data_receiver_hook == NULL) return HTP_OK;\n    connp->in_next_byte = *(connp->in_current_data + connp->in_current_receiver_offset);\n\n    htp_status_t rc = htp_connp_req_receiver_send_data(connp, 1 /* last */);", 'C01.g')
+M('c01h-d25-guard-removed', 'C01', 'break', MP, "                if (pos >= len) break;\n\n                if (data[pos] == '-') {\n                    // Found one dash, now go to check the next position.", "                if (data[pos] == '-') {\n                    // Found one dash, now go to check the next position.", 'C01.h')
